@@ -241,6 +241,12 @@ func (s *StatsCtx) Start() {
 
 // Close implements the [io.Closer] interface for *StatsCtx.
 func (s *StatsCtx) Close() (err error) {
+	// Keep the periodic flush out until the database is closed, since it
+	// takes the lock of the current unit first and opens the transaction
+	// second, which is the opposite of the order below.
+	s.confMu.Lock()
+	defer s.confMu.Unlock()
+
 	db := s.db.Swap(nil)
 	if db == nil {
 		return nil
